@@ -174,16 +174,29 @@ def _slots(fam):
     return list(FAMILIES[fam][1])
 
 
-def family(fam, cap):
-    """Template and slots of a family; `cap` keeps only the first `cap` alternatives of every slot (quick tier / extra dialects)."""
+# references that a dialect parses WITHOUT an identifier child (session variables, positional parameters, ...): rules that
+# take "the first part of a reference" must cope with there being none
+SPECIAL_REFS = {"mysql": ["@v"], "mariadb": ["@v"], "oracle": ["&1"], "snowflake": ["IDENTIFIER($c)", "$1"], "tsql": ["@v"],
+                "postgres": ["$1"], "bigquery": ["@p"], "ansi": []}
+
+
+def family(fam, cap, dialect="ansi"):
+    """Template and slots of a family; `cap` keeps only the first `cap` alternatives of every slot (quick tier / extra dialects).
+    The select family puts the dialect's identifier-less references first among the second select target's alternatives and a
+    USING join first among the joins."""
     tmpl, slots = FAMILIES[fam]
+    slots = dict(slots)
+    if fam == "select" and SPECIAL_REFS.get(dialect):
+        slots["t2"] = [", " + r for r in SPECIAL_REFS[dialect]] + slots["t2"]
+        slots["join"] = [" JOIN v USING (a)", " INNER JOIN v USING (a)"] + [j for j in slots["join"] if "USING" not in j]
+        slots["t1"] = ["t.x"] + slots["t1"]
     return tmpl, ({k: v[:cap] for k, v in slots.items()} if cap else slots)
 
 
 def make_family(fam, dialect, cap=None):
     def factory(excluded=frozenset()):
         def harness(c):
-            tmpl, slots = family(fam, cap)
+            tmpl, slots = family(fam, cap, dialect)
             vals = {k: choose(c, k, alts) for k, alts in slots.items()}
             sql = tmpl.format(**vals)
             opt = choose(c, "rule_options", list(OPTION_SETS) if fam == "cast" else ["default"])
@@ -207,7 +220,7 @@ def excluded_patterns(excluded):
 
 def replay_family(fam, dialect, cap=None):
     def rp(cex):
-        tmpl, slots = family(fam, cap)
+        tmpl, slots = family(fam, cap, dialect)
         vals = {k: alts[int(cex.get(k, 0))] for k, alts in slots.items()}
         sql = tmpl.format(**vals)
         opts = list(OPTION_SETS) if fam == "cast" else ["default"]
@@ -229,17 +242,18 @@ def units(tier, seed):
     ] + [
         Unit(name=f"c05.rules_on_construct[{fam},{dialect}{',first ' + str(cap) + ' alternatives per slot' if cap else ''}]",
              functions=["every bundled rule's _eval via sqlfluff.core.rules.base.BaseRule.crawl", "Linter.lint_string / lint_fix_parsed (lint and fix mode)"],
-             bounds={"construct": FAMILIES[fam][0], "slots": {k: len(v) for k, v in family(fam, cap)[1].items()}, "dialect": dialect,
+             bounds={"construct": FAMILIES[fam][0], "slots": {k: len(v) for k, v in family(fam, cap, dialect)[1].items()}, "dialect": dialect,
                      "rule options": list(OPTION_SETS) if fam == "cast" else ["default"], "mode": "lint / fix"},
              make=make_family(fam, dialect, cap), replay=replay_family(fam, dialect, cap),
              stubs=["none: real lexer, parser, rules; the slot alternatives are solver-forked"],
              outside=["constructs and slot values not listed", "dialects not listed"],
              witnesses_required=["parsable", "fix_mode"], sharded=True, timeout_s=900 if tier == "quick" else 3000)
         for fam, dialect, cap in (
-            [("case", "ansi", None), ("cast", "ansi", 4), ("cte", "ansi", None), ("select", "ansi", 3)] if tier == "quick" else
+            [("case", "ansi", None), ("cast", "ansi", 4), ("cte", "ansi", None), ("select", "ansi", 3), ("select", "mysql", 3)] if tier == "quick" else
             [("case", d, None) for d in ("ansi", "postgres", "tsql", "bigquery", "snowflake")] +
             [("cast", d, None) for d in ("ansi", "postgres", "tsql")] + [("cte", d, None) for d in ("ansi", "postgres", "tsql", "bigquery", "snowflake")] +
-            [("select", "ansi", 4), ("select", "postgres", 3), ("select", "tsql", 3)])
+            [("select", "ansi", 4), ("select", "postgres", 3), ("select", "tsql", 3), ("select", "mysql", 3), ("select", "oracle", 3),
+             ("select", "snowflake", 3), ("select", "bigquery", 3)])
     ] + [
         Unit(name="c05.crawl_exception_funnel", functions=["sqlfluff.core.rules.base.BaseRule.crawl"],
              bounds={"visit at which _eval raises": "none or any"}, make=make_funnel(), replay="concrete",
